@@ -177,6 +177,7 @@ func (s *Server) newPartition(protoPartition *proto.Partition, recovered bool, c
 		AutoPauseTime:                 s.config.Streams.AutoPauseTime,
 		AutoPauseDisableIfSubscribers: s.config.Streams.AutoPauseDisableIfSubscribers,
 		MinISR:                        s.config.Clustering.MinISR,
+		ConcurrencyControl:            s.config.Streams.ConcurrencyControl,
 		Encryption:                    s.config.Streams.Encryption,
 	}
 	streamsConfig.ApplyOverrides(config)
